@@ -293,7 +293,7 @@ pub fn run_c14(opts: &Opts) -> Report {
     ];
     let a = Image;
     crate::props::committed_replays(&a, opts, &mut rep);
-    run_sub(&a, opts, opts.tier.pick(1500, 40_000), &mut rep);
+    run_sub(&a, opts, opts.tier.pick(4000, 60_000), &mut rep);
     rep
 }
 
@@ -305,7 +305,7 @@ pub fn run_c16(opts: &Opts) -> Report {
     ];
     let a = SmallDic;
     crate::props::committed_replays(&a, opts, &mut rep);
-    run_sub(&a, opts, opts.tier.pick(1200, 30_000), &mut rep);
+    run_sub(&a, opts, opts.tier.pick(3000, 50_000), &mut rep);
     rep
 }
 
